@@ -276,6 +276,71 @@ def callee_id_of_local(b, local):
     return None
 
 
+def propagates_err(b, bi, dl):
+    """Is the `match` on a Result (discriminant read into local `dl` in block `bi`) a hand-written `?`: every path of the Err arm
+    assigns `Err(..)` to the return place before it meets the Ok arm again, and after the arms meet nothing but the return
+    happens (no call, no further assignment of the result)."""
+    t = b.blocks[bi]["term"]
+    if t["k"] != "switch" or t["op"].get("k") not in ("copy", "move") or t["op"]["place"]["l"] != dl:
+        return False
+    tg = {str(v): tb for v, tb in t["targets"]}
+    err = tg.get("1", t["otherwise"] if "0" in tg else None)
+    ok = tg.get("0", t["otherwise"] if "1" in tg else None)
+    if err is None or ok is None or err == ok:
+        return False
+
+    def succ(x):
+        return [y for y in b.succ[x] if not b.blocks[y].get("cleanup")]
+
+    def reach(s):
+        seen, work = set(), [s]
+        while work:
+            x = work.pop()
+            if x in seen:
+                continue
+            seen.add(x)
+            work.extend(succ(x))
+        return seen
+    r_ok, r_err = reach(ok), reach(err)
+    excl = r_err - r_ok
+    if err not in excl:
+        return False
+    err_locals = set()
+    for x in excl:
+        for s in b.blocks[x]["stmts"]:
+            if s["k"] == "assign" and not s["lhs"]["p"] and s["rv"]["k"] == "agg" and s["rv"].get("agg") == "adt" and \
+                    s["rv"].get("name") == "std::result::Result" and s["rv"].get("variant") == "Err":
+                err_locals.add(s["lhs"]["l"])
+
+    def sets_err(x):
+        for s in b.blocks[x]["stmts"]:
+            if s["k"] == "assign" and s["lhs"]["l"] == 0 and not s["lhs"]["p"]:
+                if 0 in err_locals and s["rv"]["k"] == "agg":
+                    return True
+                if s["rv"]["k"] == "use" and s["rv"]["op"].get("k") == "move" and s["rv"]["op"]["place"]["l"] in err_locals:
+                    return True
+        tt = b.blocks[x]["term"]
+        return tt["k"] == "call" and tt["dest"]["l"] == 0 and not tt["dest"]["p"] and "from_residual" in (tt.get("resolved") or tt.get("callee") or "")
+    seen, work = set(), [err]
+    while work:
+        x = work.pop()
+        if x in seen or sets_err(x):
+            continue
+        seen.add(x)
+        if b.blocks[x]["term"]["k"] == "return":
+            return False
+        for y in succ(x):
+            if y not in excl:
+                return False      # the Err arm rejoins the Ok arm without having produced an Err
+            work.append(y)
+    for x in r_err & r_ok:
+        if b.blocks[x]["term"]["k"] == "call":
+            return False
+        if any(s["k"] == "assign" and s["lhs"]["l"] == 0 for s in b.blocks[x]["stmts"]):
+            return False
+    return True
+
+
 def swallow_scan(W, chk):
     """Every place where a Result is consumed without propagating its error (ok / unwrap_or* / is_ok / is_err / match not
     from `?` / dropped) must swallow an effect-free computation: then the discarded failure is that of a read or a pure
@@ -307,6 +372,10 @@ def swallow_scan(W, chk):
                         src = callee_of_local(b, pl["l"])
                         if "Try" in src and "branch" in src:
                             continue
+                        if uses_of_local(b, s_["lhs"]["l"]) == 0:
+                            continue      # a discriminant read nothing decides on (drop elaboration), not a `match`
+                        if propagates_err(b, bi, s_["lhs"]["l"]):
+                            continue      # `match r { Ok(x) => .., Err(e) => return Err(wrap(e)) }`: a hand-written `?`, nothing swallowed
                         sites.append((b, s_.get("span", ""), "match", src, callee_id_of_local(b, pl["l"])))
     for (b, span, meth, src, sid) in sites:
         inst = "%s:%s(%s)" % (b.id, meth, re.sub(r"<[^<>]*>", "", src).split("::")[-1])
